@@ -92,15 +92,21 @@ pub fn run(op: &str, var: &[&str], ints: &[i64], sc: &[V]) -> Out {
     let f = f.unwrap_or('?');
     let st = var.get(1).copied().unwrap_or("o");
     let t3 = var.get(2).copied().unwrap_or("");
+    let alias = var.iter().skip(2).any(|t| *t == "alias");
+    let asg = var.iter().skip(2).any(|t| *t == "asg");
+    if alias && asg {
+        // a `&mut` and a `&` cannot alias
+        return Out::Unsup;
+    }
     match op {
         "simplex_new" => op_simplex_new(f, t3, ints, sc),
         "opinion_new" => op_opinion_new(f, t3, ints, sc),
         "proj" | "maxu" | "umax" => op_unary(op, f, st, t3, ints, sc),
         "discount" => op_discount(f, st, t3, ints, sc),
         "discount_chain" => op_discount_chain(f, st, t3, ints, sc),
-        "fuse" => op_fuse(f, st, t3, ints, sc),
+        "fuse" => op_fuse(f, st, t3, alias, ints, sc),
         "fuse_os" => op_fuse_os(f, st, t3, ints, sc),
-        "fuse_ss" => op_fuse_ss(f, t3, ints, sc),
+        "fuse_ss" => op_fuse_ss(f, t3, alias, ints, sc),
         "meq" if ints.len() == 2 => op_meq2(f, ints, sc),
         "meq" => op_meq(f, ints, sc),
         "fuse_fold" => op_fuse_fold(f, var, ints, sc),
@@ -305,7 +311,7 @@ fn op_discount_chain(f: char, st: &str, t3: &str, ints: &[i64], sc: &[V]) -> Out
 // ---------------------------------------------------------------------------------------------
 // fusion
 
-fn op_fuse(f: char, st: &str, t3: &str, ints: &[i64], sc: &[V]) -> Out {
+fn op_fuse(f: char, st: &str, t3: &str, alias: bool, ints: &[i64], sc: &[V]) -> Out {
     need!(ints.len() == 3);
     let Some(&[n]) = us(&ints[..1], 1, 4).as_deref() else { return Out::Unsup };
     let Some(fo) = fuse_op(ints[1]) else { return Out::Unsup };
@@ -320,6 +326,21 @@ fn op_fuse(f: char, st: &str, t3: &str, ints: &[i64], sc: &[V]) -> Out {
             type T = c1!($F, X, $n, V);
             let mut l: Opinion<T, V> = mk_o(&sc[..2 * $n + 1]);
             let r: Opinion<T, V> = mk_o(&sc[2 * $n + 1..]);
+            if alias {
+                // the SAME object twice; the second operand's scalars are ignored
+                return match st {
+                    "o" => {
+                        let w: Opinion<T, V> = fo.fuse(&l, &l);
+                        ok(&w)
+                    }
+                    "r" => {
+                        let lr = OpinionRef::from((&l.simplex, &l.base_rate));
+                        let w: Opinion<T, V> = fo.fuse(lr.clone(), lr);
+                        ok(&w)
+                    }
+                    _ => Out::Unsup,
+                };
+            }
             match (t3, st, same) {
                 ("", "o", false) => {
                     let w: Opinion<T, V> = fo.fuse(&l, &r);
@@ -382,7 +403,7 @@ fn op_fuse_os(f: char, st: &str, t3: &str, ints: &[i64], sc: &[V]) -> Out {
     chain!(@ [fam f; n14 n;] body [])
 }
 
-fn op_fuse_ss(f: char, t3: &str, ints: &[i64], sc: &[V]) -> Out {
+fn op_fuse_ss(f: char, t3: &str, alias: bool, ints: &[i64], sc: &[V]) -> Out {
     need!(ints.len() == 2);
     let Some(&[n]) = us(&ints[..1], 1, 4).as_deref() else { return Out::Unsup };
     let Some(fo) = fuse_op(ints[1]) else { return Out::Unsup };
@@ -392,6 +413,10 @@ fn op_fuse_ss(f: char, t3: &str, ints: &[i64], sc: &[V]) -> Out {
             type T = c1!($F, X, $n, V);
             let mut l: Simplex<T, V> = mk_s(&sc[..$n + 1]);
             let r: Simplex<T, V> = mk_s(&sc[$n + 1..]);
+            if alias {
+                let w: Simplex<T, V> = fo.fuse(&l, &l);
+                return ok(&w);
+            }
             match t3 {
                 "" => {
                     let w: Simplex<T, V> = fo.fuse(&l, &r);
@@ -456,10 +481,32 @@ fn op_fuse_fold(f: char, var: &[&str], ints: &[i64], sc: &[V]) -> Out {
     }
     need!(sc.len() == k * (2 * n + 1));
     let shared = var.iter().skip(2).any(|t| *t == "shared");
+    let alias = var.iter().skip(2).any(|t| *t == "alias");
     macro_rules! body {
         ($F:ident $n:tt) => {{
             type T = c1!($F, X, $n, V);
             let w: Vec<Opinion<T, V>> = sc.chunks(2 * $n + 1).map(mk_o::<T>).collect();
+            if alias {
+                // w[p0] repeated k times, always THE SAME object; first step fuses it with itself
+                let w0: &Opinion<T, V> = &w[p[0]];
+                if k == 1 {
+                    return ok(w0);
+                }
+                let mut acc: Opinion<T, V> = if style == 2 {
+                    fo.fuse(w0.as_ref(), w0.as_ref())
+                } else {
+                    fo.fuse(w0, w0)
+                };
+                for _ in 2..k {
+                    match style {
+                        0 => acc = fo.fuse(&acc, w0),
+                        1 => fo.fuse_assign(&mut acc, w0),
+                        2 => fo.fuse_assign(&mut acc, w0.as_ref()),
+                        _ => acc = fo.fuse(w0, &acc),
+                    }
+                }
+                return ok(&acc);
+            }
             let acc: Opinion<T, V> = match (style, shared) {
                 (0, true) => {
                     // ONE base-rate object (w[0]'s values) borrowed by every operand; the
